@@ -1,12 +1,15 @@
 #!/bin/bash
 # prints the shrunk replays compactly
-for f in /verif/replays/${1:-}*.json; do python3 - "$f" <<'PY'
+for f in /verif/replays/${1:-}*.json; do python3 - "$f" "${2:-500}" <<'PY'
 import json,sys
 r=json.load(open(sys.argv[1])); p=r['plan']
+def short(l):
+    if l and len(l)>14: return l[:12]+['...%d more'%(len(l)-12)]
+    return l
 print('==',sys.argv[1].split('/')[-1], 'shrunk in', r['shrink_executions'])
-print(' knobs', p.get('knobs'), 'faults', p.get('faults'), 'sched', p.get('sched'))
+print(' knobs', p.get('knobs'), 'faults', p.get('faults'), 'sched', {k:v for k,v in p.get('sched',{}).items() if v})
 for ci,c in enumerate(p['clients']):
-    print(' c%d'%ci, [(o['k'],o.get('i'),o.get('s')) if o.get('s') else (o['k'],o.get('i')) for o in c])
-print(' viol', r['violation']['class'], r['violation']['msg'][:int(sys.argv[2]) if len(sys.argv)>2 else 500])
+    print(' c%d'%ci, [(o['k'],short(o.get('i')),o.get('s')) if o.get('s') else (o['k'],short(o.get('i'))) for o in c][:30])
+print(' viol', r['violation']['class'], r['violation']['msg'][:int(sys.argv[2])])
 PY
 done
